@@ -52,16 +52,29 @@ theorem get_fan_speed_properties_refines (fru : Nat) (s : BmcState) (h1 : fru < 
   simp [api_get_fan_speed_properties, api_eval, fmtFanProps, Nat.mod_eq_of_lt, *]
   bits_close
 
+/-- INTENDED set_fan_level: the three request bytes of PICMG 3.0 Set Fan Level - the override level is set, the
+local control state stays as it is, whatever the revision of the fan tray -/
 theorem set_fan_level_refines (fru lvl : Nat) (s : BmcState) (h1 : fru < 256) (h2 : lvl < 256) :
-    (api_set_fan_level fru lvl).run s = (set_fan_level fru lvl (some 0) s, .ok .unit) := by
-  simp [api_set_fan_level, api_eval, Nat.mod_eq_of_lt, *]
+    (api_set_fan_level fru lvl).run s = (set_fan_level fru lvl none s, .ok .unit) := by
+  simp [api_set_fan_level, setFanLevel, api_eval, Nat.mod_eq_of_lt, *]
+
+/-- AS SHIPPED: four request bytes.  A fan tray with the R1.0/R2.0 command set refuses them (C7h, nothing is set);
+an R3.0 one takes the fourth byte 00h as "local control disabled" -/
+theorem set_fan_level_shipped_run (fru lvl : Nat) (s : BmcState) (h1 : fru < 256) (h2 : lvl < 256) :
+    (api_set_fan_level_shipped fru lvl).request = .ok { netfn := 0x2c, lun := 0, cmd := 0x15, data := [0, fru, lvl, 0] } ∧
+    (api_set_fan_level_shipped fru lvl).run s =
+      if (get_fan fru s).r3 then (set_fan_level fru lvl (some 0) s, .ok .unit) else (s, .ccError 0xc7) := by
+  constructor
+  · simp [api_set_fan_level_shipped, setFanLevel, reqSetFanLevelShipped, api_eval, Nat.mod_eq_of_lt, *]
+  · cases hr : (get_fan fru s).r3 <;>
+      simp [api_set_fan_level_shipped, setFanLevel, reqSetFanLevelShipped, api_eval, Nat.mod_eq_of_lt, hr, *]
 
 theorem get_fan_level_refines (fru : Nat) (s : BmcState) (h1 : fru < 256) :
     (api_get_fan_level fru).run s =
       (s, .ok (let f := get_fan fru s; .optNatPair (some f.overrideLevel) f.localLevel)) := by
   generalize hf : get_fan fru s = f
   cases f with
-  | mk minLevel maxLevel normalLevel localSupported overrideLevel localLevel localEnabled =>
+  | mk minLevel maxLevel normalLevel localSupported overrideLevel localLevel localEnabled r3 =>
   rcases localLevel with _ | l <;> rcases localEnabled with _ | e <;>
     simp [api_get_fan_level, api_eval, fmtFanLevel, Nat.mod_eq_of_lt, hf, *]
 
